@@ -51,7 +51,7 @@ HIT_STEMS = [
     "jk_song", "jacket", "AlbumArt", "Song Jacket", "JK_x",
     "song-cd", "X-CD",
     "a disc", "a title", "Song Disc", "cd title",
-    "banner bg", "jk_song-cd", "jac\u212aet",
+    "banner bg", "jk_song-cd", "jac\u212aet", " banner", " x bg", "  jacket",
 ]
 MISS_STEMS = [
     "bnx", "bann er", "bn ", "abg2", "backgroun", "bg.x", "cdtitl", "cd-title", "xjk_", "jk-song", "jacke t", "album art",
@@ -211,7 +211,10 @@ def check_assets(case, E):
     from simfile.ssc import SSCSimfile
 
     d = E.join(E.root, "song")
-    E.mkdir(d)
+    if case.get("at_root") is not None and E.flavour == "mem":
+        d = case["at_root"]  # the simfile directory is the root of the filesystem itself (an archive opened as a filesystem)
+    else:
+        E.mkdir(d)
     for name in case["files"]:
         E.write(E.join(d, name), b"x")
     links = case.get("links") or []
@@ -231,7 +234,7 @@ def check_assets(case, E):
     if route != "given":
         sim_name = "chart." + case["simfile"]
         E.write(E.join(d, sim_name), _simfile_text(case["simfile"], props).encode("utf-8"))
-    arg = d + (E.sep if case["trailing_sep"] else "")
+    arg = d + (E.sep if case["trailing_sep"] and d else "")
     if route == "given":
         cls = SSCSimfile if case["simfile"] == "ssc" else SMSimfile
         sf = cls(string="#VERSION:0.83;\n" if case["simfile"] == "ssc" else "")
@@ -477,6 +480,7 @@ def s_assets(draw):
         "files": files,
         "subdirs": subdirs,
         "links": [sub for sub, _ in subdirs if draw(st.integers(0, 3)) == 0],
+        "at_root": draw(st.sampled_from([None, None, None, None, None, ""])),
         "props": props,
         "simfile": ["sm", "ssc"][(o >> 1) & 1],
         "route": ["given", "given", "load", "dir"][(o >> 2) & 3],
